@@ -27,6 +27,7 @@ struct Ev
 };
 static std::vector<Ev> gLog;
 static std::string gServeFile; // non-empty: every request is answered with this file (Http::serveFile)
+static int gHandlerTimeoutMs = 0; // > 0: the handler arms a response time-out (ResponseWriter::timeoutAfter) before answering
 
 class RecHandler : public Http::Handler
 {
@@ -49,6 +50,8 @@ public:
     void onRequest(const Http::Request& req, Http::ResponseWriter w) override
     {
         gLog.push_back(Ev { (size_t)-1, E_REQUEST, 0 });
+        if (gHandlerTimeoutMs > 0)
+            w.timeoutAfter(std::chrono::milliseconds(gHandlerTimeoutMs));
         if (!gServeFile.empty())
             Http::serveFile(w, gServeFile);
         else
@@ -439,7 +442,8 @@ int main(int argc, char** argv)
     int d1          = opt.geti("d1", 5);
     int d2          = opt.geti("d2", 4);
     gFaults         = opt.geti("faults", 0);
-    gTickMs         = opt.geti("tick", 500);
+    gTickMs           = opt.geti("tick", 500);
+    gHandlerTimeoutMs = opt.geti("handler-timeout-ms", 0);
     if (opt.geti("files", 0))
     {
         // responses are files: a response in flight holds one more descriptor, which has to go with the connection
